@@ -20,7 +20,8 @@ RULE = ("random glyph sets from a pool with suffixes (.sc, .alt.ss01), ligature 
         "to generated uniXXXX names, non-BMP code points, code point 0, >63-character names, illegal characters; "
         "public.postscriptNames absent / partial / with duplicates, empty values and illegal characters; glyph order with names "
         "missing from the glyph set. Non-trivial = at least one glyph is renamed and at least one uniqueness suffix or recursion "
-        "(suffix/ligature) is exercised.")
+        "(suffix/ligature) is exercised."
+        " Generated names are also required to decode (Adobe glyph-naming rules) to the glyph's code point(s), ligature parts included.")
 ASSUMPTIONS = ["fontTools renames post/CFF name carriers consistently (observed via reload)"]
 
 FN = ("fun c : (gset * psnames * list str * list (str * str)) => let '(gs, ps, order, obs) := c in "
